@@ -179,6 +179,30 @@ func (c *Ctx) treePositionSweep() {
 		mreqs = append(mreqs, "mergedoc "+strings.Join(hx, " "))
 		lreqs = append(lreqs, "loaddoc "+strings.Join(hx, " "))
 	}
+	// the same source sets through ParseSchemas / ParseSchemasWithLimit directly (no prelude: source
+	// indices start at 0), under a limit that is not reached
+	var preqs []string
+	var pidx []int
+	for i, set := range sets {
+		if len(set) < 2 {
+			continue
+		}
+		var hx []string
+		for _, s := range set {
+			hx = append(hx, impl.HexW([]byte(s)))
+		}
+		for _, l := range []string{"-1", "1000000"} {
+			preqs = append(preqs, "pss "+l+" "+strings.Join(hx, " "))
+			pidx = append(pidx, i)
+		}
+	}
+	pout := c.Worker.Map(preqs)
+	for k, o := range pout {
+		if strings.HasPrefix(o, "(") {
+			set := sets[pidx[k]]
+			c.judgeTreePositions("parse-schemas"+map[bool]string{true: "-with-limit", false: ""}[k%2 == 1], o, c.tokenTables(set), set, 0)
+		}
+	}
 	mout := c.Worker.Map(mreqs)
 	lout := c.Worker.Map(lreqs)
 	for i, set := range sets {
